@@ -43,6 +43,7 @@ structure StyleProps where
   color : Colour := .unspecified
   underlined : Bool := false
   bold : Bool := false
+  background : Colour := .unspecified
   deriving DecidableEq, Repr
 
 /-- A styler as far as the output is concerned: the prefix sequences for given properties, and
